@@ -381,8 +381,36 @@ def zero_filter(ctx, sg, lim):
              ('step_generators', 'BasicMaxStepGenerator', dict(base_step=Poly.sym('hb'), step_ratio=Poly.sym('rb'), num_steps=2, offset=-2), ()),
              ('step_generators', 'MinStepGenerator', dict(base_step=Poly.sym('hb'), step_ratio=Poly.sym('rb'), num_steps=3), (Poly.sym('xb'),)),
              ('step_generators', 'MaxStepGenerator', dict(base_step=Poly.sym('hb'), step_ratio=Poly.sym('rb'), num_steps=3), (Poly.sym('xb'),))]
+    # array valued steps (array base step): a step is kept only if no element of it is zero
+    hb2 = Arr((2,), [Poly.sym('hb0'), Poly.sym('hb1')])
+    cases += [('step_generators', 'BasicMaxStepGenerator', dict(base_step=hb2, step_ratio=Poly.sym('rb'), num_steps=2), ()),
+              ('step_generators', 'BasicMinStepGenerator', dict(base_step=hb2, step_ratio=Poly.sym('rb'), num_steps=2), ())]
+
+    def zero_leaf(e):
+        """a comparison of a magnitude with zero, read as the variable 'this element is zero' (or its negation)"""
+        _, op, a, b = e
+        if ndarr.concrete_real(b) == 0 and ndarr.concrete_real(a) is None:
+            what, o = a, op
+        elif ndarr.concrete_real(a) == 0 and ndarr.concrete_real(b) is None:
+            what, o = b, {'<': '>', '>': '<', '<=': '>=', '>=': '<='}.get(op, op)
+        else:
+            raise ValueError
+        is_magnitude = repr(what).startswith('abs(')
+        key = repr(what) if is_magnitude else repr(ndarr.s_abs(what))
+        if o in ('!=',):
+            return key, False
+        if o == '==':
+            return key, True
+        if not is_magnitude:
+            raise ValueError              # an ordering test of a signed quantity is not a zero test
+        if o == '>':
+            return key, False
+        if o == '<=':
+            return key, True
+        raise ValueError
     for modname, cls, kw, args in cases:
         tested = []
+        jointly = []
 
         def oracle(interp, node, fr, value):
             if isinstance(value, Unk):
@@ -391,6 +419,13 @@ def zero_filter(ctx, sg, lim):
                         tested.append(repr(c[2]))
                     elif c[1] in ('<', '!=') and ndarr.concrete_real(c[2]) == 0:
                         tested.append(repr(c[3]))
+                from ..dv import logical_shape
+                keys = set()
+                try:
+                    keys = {zero_leaf(c)[0] for c in value.comparisons()}
+                except ValueError:
+                    pass
+                jointly.append((keys, logical_shape(value, zero_leaf)))
                 return True
             return None
         models = Models()
@@ -407,9 +442,18 @@ def zero_filter(ctx, sg, lim):
                 for v in (st.items() if isinstance(st, Arr) else [st]):
                     if repr(ndarr.s_abs(v)) not in tested and repr(v) not in tested:
                         untested.append(repr(v)[:60])
-            rep.check(bool(steps) and not untested, 'R-ZEROFILTER', '%s.%s.__call__' % (modname, cls), sg.relpath,
-                      {'steps': len(steps), 'compared_with_zero': tested[:4], 'yielded_without_a_test': untested[:3]},
-                      'each yielded step was compared with zero', label, key='zero filter')
+            # an array valued step: the test that lets it through must hold exactly when none of its elements is zero
+            weak = []
+            for st in steps:
+                if isinstance(st, Arr) and st.size > 1:
+                    mags = {repr(ndarr.s_abs(v)) for v in st.items()}
+                    shapes = [sh for keys, sh in jointly if keys >= mags]
+                    if not any(sh == ('not-any', len(mags)) for sh in shapes):
+                        weak.append({'step': repr(st.items())[:80], 'tests_of_all_its_elements': [list(sh) for sh in shapes][:2]})
+            rep.check(bool(steps) and not untested and not weak, 'R-ZEROFILTER', '%s.%s.__call__' % (modname, cls), sg.relpath,
+                      {'steps': len(steps), 'compared_with_zero': tested[:4], 'yielded_without_a_test': untested[:3],
+                       'kept_although_an_element_may_be_zero': weak[:2]},
+                      'each yielded step was compared with zero; an array step is kept only if no element is zero', label, key='zero filter')
         except InterpRaise as exc:
             rep.violation('R-ZEROFILTER', '%s.%s.__call__' % (modname, cls), sg.relpath, {'raises': exc.exc_name, 'message': exc.msg[:100]},
                           'steps', label, key='zero filter raises')
